@@ -30,6 +30,9 @@ def _worker(job):
     t0 = time.time()
     out = dict(name=scen["name"], status="ok", violations=[], wall=0.0)
     try:
+        import logging
+
+        logging.disable(logging.CRITICAL)
         from sx import core, loader, world
 
         loader.REPO[0] = repo
@@ -49,13 +52,13 @@ def _worker(job):
         rnd = random.Random(scen.get("seed", 0))
 
         def one_path():
-            nviol = len(E.violations)
+            nviol = E.nfail
             W.fresh_scratch()
             try:
                 r = fn(W, dict(scen["params"]))
             finally:
                 decisions[0] += len(E.script)
-            if nconf and len(E.violations) == nviol and (len(path_models) < nconf or rnd.random() < 0.2):
+            if nconf and E.nfail == nviol and (len(path_models) < nconf or rnd.random() < 0.2):
                 m = E.current_model()
                 if m is not None:
                     if len(path_models) < nconf:
@@ -118,8 +121,6 @@ def _worker(job):
 
 
 def _reproduced(v, res):
-    if res["status"] == "diverged":
-        return False
     if v["kind"] == "crash":
         return res["status"] == "crash" and res.get("exception") == v["info"].get("exception")
     if v["clause"] == "index-in-range":
@@ -309,7 +310,7 @@ def report(prop, H, a, scens, results, seed, wall):
         conf["mismatched"] += len(c.get("mismatched", []))
         if a.verbose:
             for mm in c.get("mismatched", []):
-                print("CONFORMANCE-MISMATCH", r["name"], json.dumps(mm, default=str)[:1500])
+                print("CONFORMANCE-MISMATCH", r["name"], json.dumps(mm, default=str)[:600])
         for k in second:
             second[k] += (r.get("second_solver") or {}).get(k, 0)
         for v in r.get("violations", []):
@@ -319,7 +320,7 @@ def report(prop, H, a, scens, results, seed, wall):
                 problems.append(f"{r['name']}: counterexample for clause {v['clause']} did not reproduce on the real code "
                                 f"({(v.get('replay') or {}).get('status')}: {(v.get('replay') or {}).get('message') or (v.get('replay') or {}).get('failures')})")
                 if a.verbose:
-                    print("NON-REPRODUCING", json.dumps(v, default=str)[:3000])
+                    print("NON-REPRODUCING", json.dumps(v, default=str)[:700])
                 continue
             hit = next((f for f in known.get("findings", []) if finding_matches(f, prop, v, sig)), None)
             if hit is not None:
